@@ -82,6 +82,7 @@ func runC08(c *core.Ctx) {
 	c.Rule("R4", "tokens are generated against the ring read in the same CAS attempt", 4)
 	c.Rule("R5", "readiness latch", 3)
 	c.Rule("R7", "published token lists are sorted", 8)
+	c.Rule("R8", "tokens inherited from the ring are kept: a heartbeat re-publishes the ring entry's tokens when the entry exists, the remembered ones only when it is missing", 4)
 	pkg := c.Prog.Pkg("ring")
 	if pkg == nil {
 		c.Miss("R1", "pkg=ring", "not loaded")
@@ -100,6 +101,7 @@ func runC08(c *core.Ctx) {
 	c08Generate(c, pkg, fns)
 	c08Ready(c, pkg)
 	c08Sorted(c, pkg, fns)
+	c09HeartbeatAs(c, "R8")
 }
 
 func isDescIngesters(fn *an.Fn, e ast.Expr) bool {
